@@ -438,6 +438,7 @@ pub fn split_into_files_at(doc: &ExecDoc, rng: &mut Rng, main: &str, paths: [&st
         return vec![(main.into(), doc.clone())];
     }
     let nfiles = rng.range(1, paths.len().min(frags.len()));
+    let minimal = rng.coin();
     // assign each fragment to main (index 0) or one of the fragment files
     let mut home: BTreeMap<String, usize> = BTreeMap::new();
     for f in &frags {
@@ -464,14 +465,21 @@ pub fn split_into_files_at(doc: &ExecDoc, rng: &mut Rng, main: &str, paths: [&st
             };
             direct_spreads(ss, &mut direct);
         }
-        // transitive closure through fragment bodies
+        // transitive closure through fragment bodies -- or, in the minimal mode, only what this file's own definitions
+        // spread: the fragments *those* need arrive through the imports of the files they live in (diamonds arise
+        // when two imported files need different fragments of a third one)
         let mut k = 0;
         while k < direct.len() {
-            if let Some(f) = doc.frag(&direct[k].clone()) {
+            let g = direct[k].clone();
+            if let Some(f) = doc.frag(&g) {
                 let mut more = vec![];
                 direct_spreads(&f.sels, &mut more);
                 for m in more {
-                    if !direct.contains(&m) {
+                    // minimal mode: a fragment spread by an imported fragment is needed here only when it lives in the
+                    // same file as that fragment (a specific import does not bring its siblings); one that lives
+                    // elsewhere arrives through the imports of the file that spreads it
+                    let follow = !minimal || (home.get(&g) == home.get(&m) && home.get(&g) != Some(&i));
+                    if follow && !direct.contains(&m) {
                         direct.push(m);
                     }
                 }
